@@ -245,18 +245,20 @@ class CounterStyle(dict):
                 parts = []
                 if len(counter['additive_symbols']) < 1:
                     return self.render_value(counter_value, 'decimal')
+                remaining_value = counter_value
                 for weight, symbol_string in counter['additive_symbols']:
                     if weight == 0:
                         continue
-                    repetitions = counter_value // weight
+                    repetitions = remaining_value // weight
                     parts.extend([symbol(symbol_string)] * repetitions)
-                    counter_value -= weight * repetitions
-                    if counter_value == 0:
+                    remaining_value -= weight * repetitions
+                    if remaining_value == 0:
                         initial = ''.join(parts)
                         break
             if initial is None:
                 return self.render_value(
-                    counter_value, counter['fallback'] or 'decimal',
+                    -counter_value if is_negative else counter_value,
+                    counter['fallback'] or 'decimal',
                     previous_types=previous_types)
 
         assert initial is not None
